@@ -32,6 +32,15 @@ def run_check(pid, tier, seed):
     try:
         ctx.translate_ok, ctx.translate_log = common.translate()
         ctx.proof = common.prove(pid, mod.META.get('coq_targets', ()))
+        if not ctx.translate_ok:
+            # a generated file that could not be regenerated breaks the tie of the properties whose
+            # theorems or case files depend on it, not of the others
+            import re
+            failed = set(re.findall(r'TRANSLATION FAILED for (\S+?):', ctx.translate_log))
+            used = set(ctx.proof.get('files', []))
+            if failed and used and not (failed & used):
+                ctx.translate_ok = True
+                ctx.translate_log += '\n(not in the dependency closure of this property: ' + ', '.join(sorted(failed)) + ')'
         # the model can be evaluated if the model files (not necessarily the proofs) built
         ctx.model_ok = ctx.proof.get('model_ok', True)
         mod.run(ctx)
